@@ -4,6 +4,7 @@ package main
 
 import (
 	"fmt"
+	"path/filepath"
 	"sort"
 	"strconv"
 	"strings"
@@ -42,7 +43,12 @@ func b01(b bool) string {
 
 func cfgTokens(c *Case) []string {
 	toks := []string{"coe=" + b01(c.Coe), "ree=" + b01(c.Ree), "uniq=" + b01(c.Uniq), "upd=" + b01(c.Upd),
-		"hdir=" + hx(helperDir), "helper=" + hx(helperName), "main=" + hx(helperName)}
+		"hdir=" + hx(helperDir), "helper=" + hx(helperName)}
+	if c.NoMain {
+		toks = append(toks, "main=-")
+	} else {
+		toks = append(toks, "main="+hx(helperName))
+	}
 	var hc []string
 	for _, n := range hostCondNames {
 		hc = append(hc, hx(n)+":"+b01(hostConds[n]))
@@ -129,7 +135,8 @@ func parseModel(ans string) *MObs {
 				continue
 			}
 			// line:neg:args:cd:out:err:in:vars:nbg  ->  neg|args|cd|out|err|vars|nbg (cd cleaned by the caller)
-			m.Probes = append(m.Probes, fmt.Sprintf("%v|%s|%s|%s|%s|%s|%s", f[1] == "1", f[2], f[3], f[4], f[5], f[7], f[8]))
+			cd := hexs(filepath.Clean(string(common.UnHex(f[3]))))
+			m.Probes = append(m.Probes, fmt.Sprintf("%v|%s|%s|%s|%s|%s|%s", f[1] == "1", f[2], cd, f[4], f[5], f[7], f[8]))
 		}
 	}
 	return m
